@@ -42,9 +42,10 @@ def replay(cached_fn, uncached_fn, key_to_args, behaviours, equal=lambda a, b: a
             misses += 0 if hit else 1
             info = cached_fn.cache_info() if hasattr(cached_fn, 'cache_info') else None   # a memo without counters is still a memo
             if info is not None and (info.hits, info.misses) != (hits, misses):
-                mismatches.append({'behaviour': bi, 'step': step, 'what': 'hit/miss counters differ from the model',
+                # the capacity / eviction policy is not part of any property: drift, not a violation
+                mismatches.append({'behaviour': bi, 'step': step, 'what': 'hit/miss counters differ from the model', 'drift': True,
                                    'model': [hits, misses], 'code': [info.hits, info.misses]})
-                break
+                hits, misses = info.hits, info.misses
             fz = freeze(ans)
             if k in first and not equal(first[k], fz):
                 mismatches.append({'behaviour': bi, 'step': step, 'key': k, 'what': 'answer differs from the first answer'})
